@@ -69,7 +69,12 @@ def harness_et(eng, ctx):
     """simulate_recession: which ET it hands to compute_recession_curve, and the table it dumps."""
     nplite.set_float_mode('R')
     mods, ys = sim_common.sim_modules()
-    conn, rec = sim_common.base_db()
+    conn, rec = sim_common.base_db(ctx.get('variant'))
+    if ctx.get('variant') == 'dropped':
+        n_inter = sum(1 for r in conn.db.tables['zeta_interval'].rows if r['interval_type'] == 'interstorm')
+        if not n_inter > len(conn.db.tables['recession_interval'].rows) >= 2:
+            raise symx.ShimGap('the "dropped" record must have an interstorm interval outside the master curve (%d interstorm, %d assembled)'
+                               % (n_inter, len(conn.db.tables['recession_interval'].rows)))
     # every ET cell symbolic
     et = {}
     for row in conn.db.tables['evapotranspiration'].rows:
@@ -166,7 +171,7 @@ def harness_et(eng, ctx):
     eng.note({'t': 'sample', 'v': {'levels': n, 'recession_steps_averaged': len(cells), 'observations_only': ctx['observations']}})
 
 
-def replay_et(observations, et_cycle=None):
+def replay_et(observations, et_cycle=None, variant=None):
     """Real `spowtd simulate recession` on the planted record with a diurnal ET cycle; the ET
     used is recovered from the zero-curvature identity  ET * dt = -dW  is not needed: the real
     function is wrapped to record the value it receives."""
@@ -174,7 +179,7 @@ def replay_et(observations, et_cycle=None):
     import numpy as np
     real = loader.real_module('spowtd.simulate_recession')
     info = {'command': 'spowtd simulate recession' + (' --observations' if observations else '')}
-    rec = sim_common.planted()
+    rec = sim_common.planted(variant)
     rr = sim_common.real_workflow_run(rec)
     seen = {}
     orig = real.compute_recession_curve
@@ -228,7 +233,7 @@ class C18(Check):
         self.unit('spowtd.schema.sql', 'view average_recession_time')
         n = 3 if quick else 4
         self.bounds = {'grid levels': n, 'grid': 'symbolic increasing reals below the transmissivity ceiling', 'ET, curvature': 'symbolic >= 0, not both 0',
-                       'command': 'planted dataset (3 recession intervals, 24 interval steps), every ET cell symbolic, both output forms'}
+                       'command': 'planted dataset (3 recession intervals, 24 interval steps; and a record with a fourth interstorm interval that is not assembled into the master curve), every ET cell symbolic, both output forms'}
         self.assumptions = ['quad is the exact integral (uninterpreted, integrand probed at one symbolic point per cell)', 'FITPACK contract as in C14',
                             'reversal / refinement invariance and the zero-curvature identity ET*dt = -dW follow from the proved per-cell structure by '
                             'additivity / linearity of integrals (analysis), not re-proved here',
@@ -241,10 +246,11 @@ class C18(Check):
         for pt in (('spline', 'peatclsm'), ('peatclsm', 'spline'), ('peatclsm', 'peatclsm')):
             exp = symx.explore(harness_et, {'observations': False, 'ptypes': pt}, name='simulate_recession[sy=%s,T=%s]' % pt, workers=1)
             self.absorb(exp, need_paths=1)
-        for obs in (False, True):
-            exp = symx.explore(harness_et, {'observations': obs}, name='simulate_recession[observations=%s]' % obs, workers=1)
+        for obs, variant in ((False, None), (True, None), (False, 'dropped')):
+            exp = symx.explore(harness_et, {'observations': obs, 'variant': variant},
+                               name='simulate_recession[observations=%s%s]' % (obs, ',record=' + variant if variant else ''), workers=1)
             self.absorb(exp, need_paths=1)
-            ok, info = replay_et(obs)
+            ok, info = replay_et(obs, variant=variant)
             self.witness_replays += 1
             if not ok:
                 self.witness_mismatch.append(info)
@@ -256,7 +262,7 @@ class C18(Check):
         if h.startswith('simulate_recession[sy='):
             return replay_units(h, info)
         if h.startswith('simulate_recession'):
-            ok, inf = replay_et('True' in h)
+            ok, inf = replay_et('True' in h, variant='dropped' if 'record=dropped' in h else None)
             inf.update(info)
             if failure.get('kind') == 'exception':
                 return 'error' in inf, inf
